@@ -153,4 +153,48 @@ a partially written file.) -/
 def crashAfter (link : FinalLink) (d : WDir) (nProducts k : Nat) : WDir :=
   ((stopOps nProducts).take k).foldl (applyStopOp link) d
 
+
+/-! ## Several step names and keys in one directory -/
+
+/-- A (step name, key id) pair: its two files are `.<name>.<keyid8>.link-unfinished`
+and `<name>.<keyid8>.link`. -/
+abbrev Slot := Str × Str
+
+/-- The directory: the two files of every slot. -/
+abbrev DirState := Slot → WDir
+
+def DirState.empty : DirState := fun _ => { prelim := .absent, final := .absent }
+
+def DirState.set (st : DirState) (s : Slot) (d : WDir) : DirState := fun t => if t = s then d else st t
+
+inductive DirOp where
+  | start (s : Slot) (materials : Dict Str RecVal)                      -- in_toto_record_start
+  | stop (s : Slot) (products : Dict Str RecVal)                        -- in_toto_record_stop
+  | run (s : Slot) (materials products : Dict Str RecVal)               -- in_toto_run
+  deriving Repr
+
+def DirOp.slot : DirOp → Slot
+  | .start s _ => s
+  | .stop s _ => s
+  | .run s _ _ => s
+
+/-- One library call on the directory: the new directory and whether the call succeeded.
+`start` (over)writes the preliminary record; `stop` is `recordStop` on the slot's two files;
+`run` (over)writes the final link. -/
+def applyDirOp (st : DirState) : DirOp → DirState × Bool
+  | .start s m => (st.set s { st s with prelim := .complete { materials := m, signer := s.2, intact := true } }, true)
+  | .stop s p =>
+    match recordStop s.2 p (st s) with
+    | .ok d => (st.set s d, true)
+    | .error _ => (st, false)
+  | .run s m p => (st.set s { st s with final := .complete { materials := m, products := p, signer := s.2 } }, true)
+
+/-- A sequence of calls: the final directory and the outcome of each call. -/
+def runDirOps : DirState → List DirOp → DirState × List Bool
+  | st, [] => (st, [])
+  | st, op :: rest =>
+    let r := applyDirOp st op
+    let q := runDirOps r.1 rest
+    (q.1, r.2 :: q.2)
+
 end InToto
